@@ -282,9 +282,34 @@ def run(case, ctx):
             if (sum(1 for v in vs if need[v].get(name, 0) > 0) >= 2 and
                     (resv or name in aligns)):
                 interesting = True
+    pristine = par.build_machine(m)
+    pl_before = dict(placements)
+
+    def untouched():
+        # the machine (and the placement) are the caller's: the next call
+        # with the same objects sees what they describe, not what this call
+        # made of them
+        # (compared attribute by attribute: Machine.__eq__ itself raises
+        # IndexError for a machine that lists a resource exception for a
+        # dead chip)
+        now = [(machine.width, machine.height),
+               dict(machine.chip_resources),
+               {k: dict(v) for k, v in
+                machine.chip_resource_exceptions.items()},
+               set(machine.dead_chips), set(machine.dead_links)]
+        was = [(pristine.width, pristine.height),
+               dict(pristine.chip_resources),
+               {k: dict(v) for k, v in
+                pristine.chip_resource_exceptions.items()},
+               set(pristine.dead_chips), set(pristine.dead_links)]
+        check(now == was, "argument-modified", "allocate() changed the "
+              "Machine it was given: %r, was %r" % (now[1:3], was[1:3]))
+        check(placements == pl_before, "argument-modified",
+              "allocate() changed the placements it was given")
     try:
         alloc = greedy.allocate(vr, nets, machine, constraints, placements)
     except exc.InsufficientResourceError as e:
+        untouched()
         ctx.hit("documented_failure")
         check(not must_succeed, "failed-on-feasible-placement",
               "InsufficientResourceError (%s) although no alignment is "
@@ -294,6 +319,7 @@ def run(case, ctx):
     except Exception as e:
         raise Violation("unexpected-exception", "%s: %s" %
                         (type(e).__name__, e))
+    untouched()
     if must_succeed:
         ctx.hit("must_succeed")
     check(set(alloc) == set(placements), "vertex-set",
